@@ -62,3 +62,28 @@ META["C01"] = dict(
     level_note="Trusts the reference model and the generator's validity rules (no duplicate (route shape, method), no routes under a sibling mount prefix). Bounded to <=2 params, depth <= ~7, generated alphabets.",
     design_ref="DESIGN.md §5 C01",
 )
+
+PLANS["C04"] = dict(
+    level="exploration",
+    rule=("generated trees of applications (depth <= 4) satisfying the property's side condition (each mount prefix used by one application, nothing else registered under it), 0-8 fangs per "
+          "application (FangAction and hand-written Fang/FangProc in 4 mixing patterns), 0-2 local fangs per handler, static/param mount prefixes of 1-2 segments; every tree built in 3 registration "
+          "orders + through the real tuple API; requests: every route under all 7 methods, misses inside / exactly at / just outside every mount (byte-extended and truncated prefixes), empty "
+          "segments, random paths, each with and without an early-answer trigger for fangs on and off the path. The per-request trace of Enter/Leave/Early/Handler events written by the fangs "
+          "must equal the order computed from the tree. distinct_nontrivial = distinct (tree shape, request class, method) with >= 2 applications on the path or a miss inside/just outside a mount."),
+    quick=[R("c04", "rel", 6_000), R("c04", "miri", 8, shards=8, flags={"small": 1})],
+    thorough=[R("c04", "rel", 150_000), R("c04", "dbg", 30_000), R("c04", "asan", 30_000), R("c04", "rel", 20_000, features=["openapi"]), R("c04", "miri", 96, shards=16, flags={"small": 1})],
+    floors={"quick": {"evaluations": 1_000_000, "distinct": 20_000, "early_answers": 50_000, "requests_under_2plus_apps": 200_000, "label:miss-inside": 50_000,
+                      "label:just-outside-extended": 50_000, "apps_built_with_tuple_api_where_eligible": 1_000, "max_depth": 3},
+            "thorough": {"evaluations": 20_000_000, "distinct": 200_000}},
+    assumptions=["reference: applications on the path outermost first, fangs in declaration order, local fangs innermost, reverse on the way out, early answer cuts everything inside",
+                 "requests whose dispatched route is changed by C01's known no-back-tracking finding are skipped (counted in observed.skipped:c01-no-backtracking)",
+                 "configurations are restricted to the property's side condition; param-prefixed mounts are generated without static siblings at the param position"],
+)
+META["C04"] = dict(
+    engine="vh c04",
+    technique="runtime monitoring: trace-equality oracle (events logged by instrumented user fangs/handlers) against the order computed from the generated configuration tree; Miri/ASan on the same workload",
+    level_text=("Real applications are assembled from generated trees and every request's fang trace is recorded at the user boundary and compared exactly with the expected onion order and scope, "
+                "including misses inside and just outside each mount and early answers at every position."),
+    level_note="Trusts the reference computation and the generator's side-condition filter; fang tuples follow 4 fixed type patterns; trees up to depth 4.",
+    design_ref="DESIGN.md §5 C04",
+)
